@@ -5,6 +5,7 @@ Property theorems only; helper lemmas live in Proofs/LV.lean, Proofs/Key.lean.
 import IdpyVerif.Proofs.LV
 import IdpyVerif.Proofs.Key
 import IdpyVerif.Proofs.SessionDB
+import IdpyVerif.Proofs.SessionTree
 import IdpyVerif.Gen.Tables
 namespace Idpy.Props.C14
 open Idpy Idpy.LV Idpy.SessionDB
@@ -118,5 +119,35 @@ example : ∀ m, (joinKey [[98], [99], [103]]) ≠ joinKey ([[97], [99], [103]].
   | 1 => decide
   | 2 => decide
   | (n+3) => simp only [List.take_succ_cons, List.take_nil]; decide
+
+/-- **revocation cascades over the whole subtree**: when `revoke_sub_tree(session_id, level)`
+    completes, the node at that level and every node below it through `subordinate` links — at any
+    depth — is revoked (for every database, every path and level) -/
+theorem revoke_covers_subtree (db : DB) (path : List Str) (level : Nat) (db' : DB)
+    (h : step db (.revoke path level) = some db') (x : Str)
+    (hx : Reach db (joinKey (path.take (level+1))) x) :
+    ∃ n, lookup db' x = some n ∧ n.revoked = true :=
+  revokeTree_covers _ db _ db' h x hx
+
+/-- … and nothing else: a node that is not at or below the revoked node is exactly as it was -/
+theorem revoke_is_local (db : DB) (path : List Str) (level : Nat) (db' : DB)
+    (h : step db (.revoke path level) = some db') (x : Str)
+    (hx : ¬ Reach db (joinKey (path.take (level+1))) x) :
+    lookup db' x = lookup db x :=
+  revokeTree_local _ db _ db' h x hx
+
+/-- revocation never changes the shape of the tree (keys, kinds, ids, links) and never takes a
+    revocation back -/
+theorem revoke_keeps_tree (db : DB) (path : List Str) (level : Nat) (db' : DB)
+    (h : step db (.revoke path level) = some db') : Shape db db' :=
+  shape_revokeTree _ db _ db' h
+
+/-- non-vacuity: in the database after two sessions of one user at two clients, revoking the user
+    (level 0) completes and the second client's grant is below the user node -/
+example : (step (runOps [] [.create [117] [99] [103], .create [117] [100] [104]]) (.revoke [[117], [100], [104]] 0)).isSome = true := by
+  decide +kernel
+example : Reach (runOps [] [.create [117] [99] [103], .create [117] [100] [104]]) (joinKey [[117]]) (joinKey [[117], [100], [104]]) := by
+  refine Reach.down (n := { kind := .user, id := [117], subs := [joinKey [[117], [99]], joinKey [[117], [100]]], revoked := false }) (by decide +kernel) (by decide +kernel) (s := joinKey [[117], [100]]) (by decide +kernel) ?_
+  refine Reach.down (n := { kind := .client, id := [100], subs := [joinKey [[117], [100], [104]]], revoked := false }) (by decide +kernel) (by decide +kernel) (s := joinKey [[117], [100], [104]]) (by decide +kernel) (Reach.self _)
 
 end Idpy.Props.C14
